@@ -118,7 +118,7 @@ let handle (f : string array) : string =
     (match List.find_opt (fun (n, _) -> n = name) gen_asn1_schemas with
      | None -> "SKIP"
      | Some (_, k) -> show (fun ((_, rest), _) -> "ok " ^ hex_of_bytes rest) (unmarshal k noParams (bytes_of_hex f.(3))))
-  | "D" | "LAD" -> "SKIP"
+  | "D" | "LAD" | "COLD" -> "SKIP"
   | _ -> "BADCASE"
 
 let () = run_file Sys.argv.(1) handle
